@@ -9,9 +9,14 @@ def run(ctx):
     bad = ['bad:c01-committed-but-target-unaltered', 'bad:c01-rejected-but-target-altered', 'bad:range']
     q21 = [('reach', 30, ['reach:tx1-committed-on-two-targets']), ('reach', 34, ['reach:tx1-failed-aborted'])] + [('bad', d, [b]) for b in bad]
     configs = [('2x1', cfg21, q21, ['c01', 'c05'])]
+    # two transactions over two targets. Waypoints: the first transaction is validated (its commits under way) or committed,
+    # the second has failed: one solver-chosen reachable state of the class, then every continuation of 12 steps
+    cfg22 = dict(nt=2, nx=2, sync=False, rollback=False, faults=False, crash=False)
+    way = lambda a, b: {'pred': 'reach:w-' + a + b, 'depth': 20, 'seed': {'pred': 'reach:w-' + a + '-', 'depth': 18}}
+    q22 = [('bad', 12, bad[:2], way(a, 'F')) for a in 'VC']
     if not quick:
-        cfg22 = dict(nt=2, nx=2, sync=False, rollback=False, faults=False, crash=False)
-        configs.append(('2x2', cfg22, [('bad', 36, [b]) for b in bad], ['c01', 'c05']))
+        q22 += [('bad', 36, [b]) for b in bad]
+    configs.append(('2x2', cfg22, q22, ['c01', 'c05'] if not quick else []))
     proto.run(ctx, 'C01', configs,
               'transition relation of the real v2 transaction/proposal reconcilers with two targets; contracts "commit opens only when '
               'every proposal is VALIDATED", "values change only in the commit phase" + BMC of the all-or-nothing state predicates',
